@@ -61,14 +61,14 @@ Definition sasl_server_conditions : list bytes := [(hex "436f6e646974696f6e496e7
 (* ---- sasl.go newSASL: the feature value and what its closures capture ---- *)
 Definition sasl_newSASL_params : list bytes := [(hex "6964656e74697479") (* identity *); (hex "70617373776f7264") (* password *); (hex "7065726d697373696f6e73") (* permissions *); (hex "6d656368616e69736d73") (* mechanisms *)].
 (* variables newSASL declares besides its parameters (outside the function literals) *)
-Definition sasl_newSASL_locals : list bytes := [(hex "706172736564") (* parsed *)].
+Definition sasl_newSASL_locals : list bytes := [].
 Definition sasl_feature_closures : list bytes := [(hex "4c697374") (* List *); (hex "5061727365") (* Parse *); (hex "4e65676f7469617465") (* Negotiate *)].
 (* (closure, variable of newSASL it mentions) *)
-Definition sasl_closure_captures : list (bytes * bytes) := [((hex "4c697374"), (hex "6d656368616e69736d73")) (* List, mechanisms *); ((hex "5061727365"), (hex "706172736564")) (* Parse, parsed *); ((hex "4e65676f7469617465"), (hex "6964656e74697479")) (* Negotiate, identity *); ((hex "4e65676f7469617465"), (hex "70617373776f7264")) (* Negotiate, password *); ((hex "4e65676f7469617465"), (hex "7065726d697373696f6e73")) (* Negotiate, permissions *); ((hex "4e65676f7469617465"), (hex "6d656368616e69736d73")) (* Negotiate, mechanisms *)].
+Definition sasl_closure_captures : list (bytes * bytes) := [((hex "4c697374"), (hex "6d656368616e69736d73")) (* List, mechanisms *); ((hex "4e65676f7469617465"), (hex "6964656e74697479")) (* Negotiate, identity *); ((hex "4e65676f7469617465"), (hex "70617373776f7264")) (* Negotiate, password *); ((hex "4e65676f7469617465"), (hex "7065726d697373696f6e73")) (* Negotiate, permissions *); ((hex "4e65676f7469617465"), (hex "6d656368616e69736d73")) (* Negotiate, mechanisms *)].
 (* (closure, use of a variable of newSASL that can change it or hand out a reference into it) *)
-Definition sasl_closure_writes : list (bytes * bytes) := [((hex "5061727365"), (hex "61737369676e20706172736564")) (* Parse, assign parsed *); ((hex "5061727365"), (hex "736c69636520706172736564")) (* Parse, slice parsed *); ((hex "5061727365"), (hex "6164647220706172736564")) (* Parse, addr parsed *)].
+Definition sasl_closure_writes : list (bytes * bytes) := [].
 (* where the value that Parse decodes <mechanisms/> into (`parsed`) is declared: 0 = inside the call of Parse, 1 = in newSASL (captured by the feature value), 2 = elsewhere *)
-Definition sasl_parse_target_scope : nat := 1.
+Definition sasl_parse_target_scope : nat := 0.
 Definition sasl_package_vars : list bytes := [(hex "6572724e6f4d656368616e69736d73") (* errNoMechanisms *); (hex "657272556e65787065637465645061796c6f6164") (* errUnexpectedPayload *); (hex "6572725465726d696e61746564") (* errTerminated *)].
 (* (function, assignment / address-of / slicing of a package-level variable of sasl.go) *)
 Definition sasl_package_var_writes : list (bytes * bytes) := [].
